@@ -1547,7 +1547,8 @@ func verifPartitionSMF(m Message) (n int) {
 
 // Add appends the messages (the first with the given delta, the others with delta 0) unless the track is closed
 //@ func (*Track).Add
-//@ requires forall k int :: 0 <= k && k < len(msgs) ==> !isEOT(msgs[k])
+// (an end-of-track message may only come last: the messages after it would land behind the end of the track)
+//@ requires forall k int :: 0 <= k && k < len(msgs) - 1 ==> !isEOT(msgs[k])
 //@ modifies *t
 //@ ensures [P:C01] old(len(*t) > 0 && isEOT((*t)[len(*t)-1].Message)) ==> *t == old(*t)
 //@ ensures [P:C01] !old(len(*t) > 0 && isEOT((*t)[len(*t)-1].Message)) ==> (len(*t) == old(len(*t)) + len(msgs) && forall i int :: 0 <= i && i < old(len(*t)) ==> (*t)[i] == old((*t)[i]))
@@ -1559,8 +1560,8 @@ func verifPartitionSMF(m Message) (n int) {
 //@ loop 0 invariant forall i int :: 0 <= i && i < old(len(*t)) ==> (*t)[i] == old((*t)[i])
 //@ loop 0 invariant forall k int :: 0 <= k && k <= rangeindex ==> ((*t)[old(len(*t)) + k].Message == msgs[k] && (*t)[old(len(*t)) + k].Delta == (k == 0 ? old(deltaticks) : 0))
 //@ loop 0 invariant deltaticks == (rangeindex + 1 == 0 ? old(deltaticks) : 0)
-//@ loop 0 invariant old(wfTrack(*t)) ==> forall i int :: 0 <= i && i < len(*t) ==> !isEOT((*t)[i].Message)
-//@ loop 0 invariant forall k int :: 0 <= k && k < len(msgs) ==> !isEOT(msgs[k])
+//@ loop 0 invariant old(wfTrack(*t)) ==> forall i int :: 0 <= i && i < len(*t) - (rangeindex + 1 == len(msgs) ? 1 : 0) ==> !isEOT((*t)[i].Message)
+//@ loop 0 invariant forall k int :: 0 <= k && k < len(msgs) - 1 ==> !isEOT(msgs[k])
 //@ loop 0 decreases len(msgs) - rangeindex
 
 // ---------------------------------------------------------------- SMF.WriteTo (C10, C03)
